@@ -177,11 +177,11 @@ class Rule(object):
         ).check_validity_of(
             "scheme", "host", "path"
         )
-        uri = uri_reference(val)
         try:
+            uri = uri_reference(val)
             validator.validate(uri)
             is_valid = True
-        except (InvalidComponentsError, MissingComponentError, UnpermittedComponentError) as ex:
+        except (InvalidComponentsError, MissingComponentError, UnpermittedComponentError, UnicodeError) as ex:
             logger.debug(ex)
         return is_valid
 
